@@ -609,7 +609,7 @@ fn gen_kernel_cases(k: &mut KRun, thorough: bool) {
                 for &b in vals {
                     let imp = caught(|| sub.make_sub_tuple(a..b));
                     k.add(
-                        format!("withbounds 6 {} {} {} 1", s0, a, b),
+                        format!("tupwithbounds 6 {} {} {} {}", s0, e0, a, b),
                         ok_or_panic(imp, |r| match r {
                             None => "none".into(),
                             Some(x) => match x.first().and_then(as_i64) {
@@ -994,7 +994,7 @@ fn adapt(kernel: &str, req: &str, model: &mut String, imp: &mut String) {
                 *model = format!("ok {}", n < q + add);
             }
         }
-        "withbounds" => {}
+        "withbounds" | "tupwithbounds" => {}
         _ => {}
     }
 }
